@@ -314,6 +314,9 @@ impl Prop for C06 {
       _ => panic!("unknown task {}", t),
     }
   }
+  fn cold_subs(&self) -> Vec<(&'static str, i64, i64, fn(i64) -> Vec<i64>)> {
+    vec![("day2term", 0, crate::model::NDAYS as i64, |x| vec![x]), ("time2term", 0, crate::model::NDAYS as i64, |x| vec![x, (x * 7919).rem_euclid(86400)])]
+  }
   fn eval(&self, env: &Env, out: &mut Out, sub: &str, case: &Case) {
     match sub {
       "seq" => self.eval_seq(env, out, case),
